@@ -219,7 +219,8 @@ def pipe_part(ctx, drv, prop):
         if len(paths) < (n if maxstream > 1 else n // 3) // 2:
             raise vf.MachineryError("too few behaviours from the simulator: %d" % len(paths))
         f = ctx.path("ppaths_%s.json" % cfg)
-        json.dump({"states": states, "init": init, "paths": paths, "maxid": maxid, "maxstream": maxstream}, open(f, "w"))
+        # every other behaviour runs with datagram framing (a UDP upstream's socket), the rest with TCP framing
+        json.dump({"states": states, "init": init, "paths": paths, "maxid": maxid, "maxstream": maxstream, "mixed": True}, open(f, "w"))
         t = ctx.path("preplay_%s.ndjson" % cfg)
         ctx.driver(drv, ["-mode", "preplay", "-n", 3000, "-in", f, "-out", t], timeout=3000)
         evs = [json.loads(x) for x in open(t).read().splitlines()]
